@@ -2,11 +2,22 @@
 
 package querylog
 
-import "context"
+import (
+	"context"
+
+	"github.com/AdguardTeam/AdGuardHome/internal/aghnet"
+)
 
 // VerifRotate performs the rotation of the log file (querylog.json is renamed
 // to querylog.json.1) that the periodic rotation check performs when the
 // oldest record is older than the rotation interval.
 func VerifRotate(ctx context.Context, l QueryLog) (err error) {
 	return l.(*queryLog).rotate(ctx)
+}
+
+// VerifAnonymizer returns the IPMut the query log holds (Config.Anonymizer as
+// New stored it): the one its configuration handlers store into and its
+// report loads from.
+func VerifAnonymizer(l QueryLog) (m *aghnet.IPMut) {
+	return l.(*queryLog).anonymizer
 }
